@@ -53,7 +53,7 @@ class Prop:
     id = "C08"
     level = "exploration"
     engine = "VT"
-    quick_runs = 40000
+    quick_runs = 80000
     thorough_runs = 1500000
     rule = ("(a) metamorphic: seeded pipelines (depth 1-3) of value-agnostic operators (%d catalogue rows, callbacks that only build "
             "structure) run on inputs made of unique tokens and again with every token renamed to a falsy value (None, 0, 0.0, False, '', (), "
